@@ -442,6 +442,20 @@ def install(reg):
         return VBool(kind_at(p, fs.kind0, str_term(p, path)) != ABSENT)
     SF["fs_exists0"] = s_fs_exists0
 
+    def s_fs_same(p, path):
+        fs = fs_of(p)
+        t = str_term(p, path)
+        return VBool(z3.And(kind_at(p, fs.kind, t) == kind_at(p, fs.kind0, t), z3.Select(fs.data, t) == z3.Select(fs.data0, t)))
+    SF["fs_same"] = s_fs_same
+
+    def s_pathjoin(p, a, b):
+        return VStr(p.engine.uf("pathjoin", S, S, S)(str_term(p, a), str_term(p, b)))
+    SF["pathjoin"] = s_pathjoin
+
+    def s_dirname(p, a):
+        return VStr(p.engine.uf("dirname", S, S)(str_term(p, a)))
+    SF["dirname"] = s_dirname
+
     def s_probe_path(p, path):
         t = str_term(p, path)
         join = p.engine.uf("pathjoin", S, S, S)
